@@ -67,11 +67,15 @@ type APtr struct {
 
 // Obj is an abstract memory object.
 type Obj struct {
-	key       string
-	symbolic  bool // contents are symbolic fields keyed by key+path (parameter pointee / spilled parameter)
-	stores    map[string][]storeRec
-	alloc     *ssa.Alloc
-	escaped   bool
+	key      string
+	symbolic bool // contents are symbolic fields keyed by key+path (parameter pointee / spilled parameter)
+	stores   map[string][]storeRec
+	alloc    *ssa.Alloc
+	escaped  bool
+	// shared: the address was handed to an inlined callee, which may store through it; loads are
+	// then resolved from the recorded stores of all frames only (never from this function's own
+	// syntactic store counts)
+	shared    bool
 	typ       types.Type
 	arrRoot   *Root            // for array-typed allocs
 	arrFields map[string]*Root // array-typed fields written element-wise
@@ -415,4 +419,18 @@ func describeAV(v AV) string {
 		return "<nil>"
 	}
 	return fmt.Sprintf("%T", v)
+}
+
+// addWrite records a write on the root. A function with a loop is evaluated in several passes
+// and an inlined callee once per evaluation of its call; a root that outlives those evaluations
+// (a buffer the caller passed in) would otherwise collect the same write several times. The
+// record made by the same instruction of the same function at the same offset is replaced.
+func (r *Root) addWrite(w *Write) {
+	for i, old := range r.writes {
+		if old.pos == w.pos && old.kind == w.kind && old.fn == w.fn && old.off.String() == w.off.String() {
+			r.writes[i] = w
+			return
+		}
+	}
+	r.writes = append(r.writes, w)
 }
